@@ -509,6 +509,10 @@ func (x *Exec) havocHeap(st *State, why string) {
 	st.epoch = fmt.Sprintf("%d", x.epochN)
 	st.modEpoch = nil
 	for c := range st.esc {
+		if x.privateCell(c) {
+			// declared `private`: only calls handed its address directly change it
+			continue
+		}
 		if v, ok := st.cells[c]; ok {
 			nv := x.freshVal(st, "esc_"+c.name, c.typ)
 			nv.Typ = v.Typ
@@ -1194,6 +1198,21 @@ func (x *Exec) doStore(fr *Frame, st *State, in *ssa.Store) {
 		}
 	}
 	x.store(st, x.locOfPointer(st, addr, elem), v)
+}
+
+// privateCell: an address-taken local named in a `private` clause is only
+// written by the calls its address is passed to (no callee retains it).
+func (x *Exec) privateCell(c *Cell) bool {
+	if x.ctr == nil {
+		return false
+	}
+	for _, pn := range x.ctr.Private {
+		if pn == c.name {
+			x.funcsUsed["assume:separation: the address of local "+pn+" of "+x.fnKey+" is not retained by the calls it is passed to"] = true
+			return true
+		}
+	}
+	return false
 }
 
 func (x *Exec) escapeClosure(st *State, c *Closure) {
